@@ -241,7 +241,7 @@ pub fn run(rep: &Report) {
     rep.add_extra("binary_operator_pairs_covered", json!(format!("{} of 196", seen)));
     // (b) all short sequences without separators
     let alphabet: Vec<Tok> = gen::base_alphabet().into_iter().filter(|t| !matches!(t, Tok::Comma | Tok::Semi)).collect();
-    let max_len = rep.tier.pick(6usize, 7);
+    let max_len = rep.tier.pick(7usize, 8);
     for len in 1..=max_len {
         let total = gen::count_sequences(alphabet.len(), len);
         common::enumerate(rep, "sequences", total, 8192, &|i, l| {
@@ -264,7 +264,7 @@ pub fn run(rep: &Report) {
     }
     rep.set_exhaustive(true);
     // (c) random ASTs
-    let n = rep.tier.pick(60_000u64, 1_000_000);
+    let n = rep.tier.pick(300_000u64, 3_000_000);
     let depth = rep.tier.pick(6u32, 12);
     common::random_search(rep, "random-asts", 20, n, &move || arb_ast_case(no_sequence_cfg(depth)), &|c: &AstCase, l| {
         l.sample(3, || json!({"ast": c.ast.sexp(), "minimal": tok::render_spaced(&render_tokens(&c.ast, &mut Minimal))}));
